@@ -2,6 +2,7 @@ import TypstyleModel.Props.C07
 import TypstyleModel.Proofs.Monad
 import TypstyleModel.Proofs.Tokens
 import TypstyleModel.Proofs.EndToEnd
+import TypstyleModel.Proofs.MarkupSeq
 /-! C08 — prose is left untouched (printer side).  The line representation of a piece of markup
 loses, duplicates and reorders no node; inside a line a space is printed as one blank (never a break),
 a line ends with exactly its number of line feeds, text leaves are copied, and an expression on a line
@@ -115,5 +116,15 @@ theorem C08_prose_text_occurs_in_rendered_output (w : Nat) (d : Doc) (s : String
     (h : Atom.txt s t ∈ best w 0 [⟨0, .brk, d⟩]) :
     s.toList <:+: (pretty w d).toList :=
   render_infix _ _ h
+
+/-- T8.2 (a whole line): the document of one markup line is what was there before, followed by
+exactly one piece per node of the line in source order — a white-space node ↦ exactly one blank (never
+a break, never nothing), a text node ↦ its text as one atom, every other token ↦ its text; an embedded
+expression or comment ↦ its own conversion — followed by exactly `breaks` hard line breaks.  Nothing is
+inserted between two pieces: the printer never re-wraps or re-joins prose.  For every line whatsoever. -/
+theorem C08_line_is_the_sequence_of_its_nodes (e : Env) (r : Rec) (ctx : Ctx) (doc : Twin.Doc) (l : MLine) :
+    Post (markupLineStep e r ctx doc l) (fun doc' => ∃ pieces, MPieces e l.nodes pieces ∧ pieces.length = l.nodes.length ∧
+      doc' = (if l.breaks > 0 then (pieces.foldl (· ++ ·) doc) ++ Twin.repeatN Twin.hardline l.breaks else pieces.foldl (· ++ ·) doc)) :=
+  Post.mono (markupLine_pieces e r ctx doc l) (fun _ ⟨ps, hps, h⟩ => ⟨ps, hps, hps.length, h⟩)
 
 end Typstyle
